@@ -128,24 +128,11 @@ Theorem C20_doc_formulas : forall f x, In f doc_formulas ->
 Proof. exact doc_formulas_match. Qed.
 Print Assumptions C20_doc_formulas.
 
-(* documentation, temperature fixed points: all entries except the two
-   listed in [doc_known_bad] (°C -> K, K -> °C) equal the computed value
-   (`=`) or round to it (`≅`).  PARTIAL because of the refutation below. *)
-Theorem C20_doc_equivs_partial : forall e, In e doc_equivs ->
-  equiv_key_bad e = false -> doc_equiv_holds e.
-Proof. exact doc_equivs_partial. Qed.
-Print Assumptions C20_doc_equivs_partial.
-
-(* REFUTED at full strength: the documentation says `0 °C = 273,25 K`, the
-   catalogue computes 273.15 K *)
-Theorem C20_doc_tables_refuted :
-  exists e x, In e doc_equivs /\ de_exact e = true /\
-              equiv_in the_catalogue (de_amt e) (de_from e) (de_to e) = Some x /\
-              ~ x == de_val e /\
-              de_from e = "°C"%string /\ de_to e = "K"%string /\
-              de_val e == 27325 # 100 /\ x == 27315 # 100.
-Proof. exact doc_tables_refuted. Qed.
-Print Assumptions C20_doc_tables_refuted.
+(* documentation, temperature fixed points: EVERY entry equals the computed
+   value (`=`) or rounds to it at the printed number of places (`≅`) *)
+Theorem C20_doc_equivs : forall e, In e doc_equivs -> doc_equiv_holds e.
+Proof. exact doc_equivs_match. Qed.
+Print Assumptions C20_doc_equivs.
 
 (* the registered temperature table is [K] = [°C] + 273.15 and
    [°F] = [°C] * 9/5 + 32 in all six directions, for ALL amounts *)
@@ -239,6 +226,9 @@ Example C20_kWh_is_compound :
 Proof. eexists. vm_compute. repeat split. Qed.
 Example C20_quantized_premise : si_lookup si_quantum "DataVolume" = Some (1 # 8)%Q.
 Proof. reflexivity. Qed.
-Example C20_known_bad_hits_only_two :
-  List.length (filter equiv_key_bad doc_equivs) = 2%nat.
-Proof. vm_compute. reflexivity. Qed.
+(* regression for the repaired finding F10: `0 °C = 273,25 K` is rejected *)
+Example C20_former_bad_row_rejected :
+  doc_equiv_ok the_catalogue (mkDocEquiv "°C" (Qmake 0 1) "K" (Qmake 27325 100) true 2) = false.
+Proof. exact former_bad_row_rejected. Qed.
+Example C20_fixed_point_now : In (mkDocEquiv "°C" (Qmake 0 1) "K" (Qmake 5463 20) true 2) doc_equivs.
+Proof. vm_compute. tauto. Qed.
